@@ -3,6 +3,7 @@
 //   scaling_driver <out.ndjson> <seed> <cases>
 #include "tabledata.h"
 #include <nano/dataset.h>
+#include <nano/dataset/iterator.h>
 #include <nano/dataset/stats.h>
 #include <nano/generator/elemwise_identity.h>
 #include <nano/linear/util.h>
@@ -527,8 +528,62 @@ void float_case(vt::Rng& rng, int64_t icase)
             }
         }
     }
+    // what the iterators deliver: inputs and targets scaled independently of whether they are cached, of the batch size and of the kind
+    // of loop - the raw values scaled with the iterator's own statistics (same kernels: compared to 1e-12), missing inputs as zeros
+    bool iteratorOK = true;
+    for (int variant = 0; variant < 2; ++variant)
+    {
+        const auto mode = rng.pick(modes);
+        auto       it   = flatten_iterator_t{dataset, samples};
+        it.batch(rng.pick(std::vector<tensor_size_t>{1, 2, 7, 64, 1000}));
+        it.scaling(mode);
+        if (rng.coin())
+        {
+            it.cache_flatten(std::numeric_limits<tensor_size_t>::max());
+        }
+        if (rng.coin())
+        {
+            it.cache_targets(std::numeric_limits<tensor_size_t>::max());
+        }
+        tensor4d_t tbuffer;
+        const auto rawt = tensor4d_t{dataset.targets(samples, tbuffer)};
+        auto       refx = raw;
+        auto       reft = rawt;
+        it.flatten_stats().scale(mode, refx.tensor());
+        it.targets_stats().scale(mode, reft.tensor());
+        tensor2d_t gotx(raw.dims()), gotx2(raw.dims());
+        tensor4d_t gott(rawt.dims()), gott2(rawt.dims());
+        gotx.full(-7.0);
+        gotx2.full(-7.0);
+        gott.full(-7.0);
+        gott2.full(-7.0);
+        it.loop(
+            [&](tensor_range_t range, size_t, tensor2d_cmap_t inputs, tensor4d_cmap_t targets)
+            {
+                gotx.slice(range) = inputs;
+                gott.slice(range) = targets;
+            });
+        it.loop([&](tensor_range_t range, size_t, tensor2d_cmap_t inputs) { gotx2.slice(range) = inputs; });
+        it.loop([&](tensor_range_t range, size_t, tensor4d_cmap_t targets) { gott2.slice(range) = targets; });
+        const auto close = [](const double got, const double ref) { return std::fabs(got - ref) <= 1e-12 * (1.0 + std::fabs(ref)); };
+        for (tensor_size_t i = 0; i < raw.size(); ++i)
+        {
+            const auto ref = std::isfinite(refx(i)) ? refx(i) : 0.0;
+            iteratorOK     = iteratorOK && close(gotx(i), ref) && close(gotx2(i), ref);
+        }
+        for (tensor_size_t i = 0; i < rawt.size(); ++i)
+        {
+            iteratorOK = iteratorOK && (!std::isfinite(reft(i)) || (close(gott(i), reft(i)) && close(gott2(i), reft(i))));
+        }
+        // ... and the iterator's statistics are those of the samples it was given
+        for (tensor_size_t c = 0; c < isize; ++c)
+        {
+            iteratorOK = iteratorOK && it.flatten_stats().m_samples(c) == stats.m_samples(c) &&
+                         (stats.m_samples(c) == 0 || (it.flatten_stats().m_min(c) == stats.m_min(c) && it.flatten_stats().m_max(c) == stats.m_max(c)));
+        }
+    }
     vt::put(vt::J("Float").i("case", icase).i("rows", n).i("columns", isize).i("outputs", tsize).b("statsOK", statsOK).b("roundtripOK", roundtripOK).b(
-        "advertisedOK", advertisedOK).b("categoricalOK", categoricalOK).b("missingOK", missingOK).b("affineOK", affineOK));
+        "advertisedOK", advertisedOK).b("categoricalOK", categoricalOK).b("missingOK", missingOK).b("affineOK", affineOK).b("iteratorOK", iteratorOK));
 }
 } // namespace
 
